@@ -30,6 +30,15 @@ def ancestors(cls, parent):
     return out
 
 
+class Raised(Exception):
+    def __init__(self, cls):
+        Exception.__init__(self, cls)
+        self.cls = cls
+
+
+XS = (0, 1, 2, 3, 77, -4)
+
+
 class Gen:
     def __init__(self, draw, parent):
         self.draw = draw
@@ -62,77 +71,169 @@ class Gen:
                 lines.append(p + "def %s := callee(x)" % self.fresh("v"))
             else:
                 lines.append(p + "print(callee(x) + 1)")
-        else:
-            cls = self.pick(self.excs)
-            self.sites.append(([cls], list(stack), "raise"))
-            lines.append(p + "if x = 77 then raise %s(\"direct\")" % cls)
+            return ("call", form)
+        cls = self.pick(self.excs)
+        self.sites.append(([cls], list(stack), "raise"))
+        lines.append(p + "if x = 77 then raise %s(\"direct\")" % cls)
+        return ("raise", cls)
 
     def node(self, stack, lines, ind, depth):
+        """appends the text of one construct to `lines` and returns its tree (what run() interprets)"""
         self.budget -= 1
         p = "    " * ind
         kind = self.pick(["site", "site", "if", "loop", "match", "handle", "handle", "seq"]) if depth > 0 and self.budget > 0 else "site"
         if kind == "site":
-            self.site(stack, lines, ind)
-        elif kind == "if":
+            return self.site(stack, lines, ind)
+        if kind == "if":
             lines.append(p + "if x > 0 then")
-            self.node(stack, lines, ind + 1, depth - 1)
+            a = self.node(stack, lines, ind + 1, depth - 1)
             lines.append(p + "    print(\"end then\")")
+            b = None
             if self.draw(st.booleans()):
                 lines.append(p + "else")
-                self.node(stack, lines, ind + 1, depth - 1)
+                b = self.node(stack, lines, ind + 1, depth - 1)
                 lines.append(p + "    print(\"end else\")")
-        elif kind == "loop":
+            return ("if", a, b)
+        if kind == "loop":
             if self.draw(st.booleans()):
                 lines.append(p + "for %s in 0 .. 2 do" % self.fresh("i"))
+                times = 2
             else:
                 w = self.fresh("w")
                 lines.append(p + "def %s := 1" % w)
                 lines.append(p + "while %s > 0 do" % w)
                 lines.append(p + "    %s := %s - 1" % (w, w))
-            self.node(stack, lines, ind + 1, depth - 1)
-        elif kind == "match":
+                times = 1
+            return ("loop", times, self.node(stack, lines, ind + 1, depth - 1))
+        if kind == "match":
             # every block ends in a print: a value-producing tail would make arms / branches disagree in type,
             # which is a typing matter outside this property
             lines.append(p + "match x")
             lines.append(p + "    1 =>")
-            self.node(stack, lines, ind + 2, depth - 1)
+            a = self.node(stack, lines, ind + 2, depth - 1)
             lines.append(p + "        print(\"end arm 1\")")
             lines.append(p + "    _ =>")
-            self.node(stack, lines, ind + 2, depth - 1)
+            b = self.node(stack, lines, ind + 2, depth - 1)
             lines.append(p + "        print(\"end arm _\")")
-        elif kind == "seq":
-            self.node(stack, lines, ind, depth - 1)
-            self.node(stack, lines, ind, depth - 1)
+            return ("match", a, b)
+        if kind == "seq":
+            a = self.node(stack, lines, ind, depth - 1)
+            b = self.node(stack, lines, ind, depth - 1)
+            return ("seq", a, b)
+        # handle: the guarded call sees the arms' classes, the arm bodies do not
+        k = self.draw(st.integers(1, 3))
+        classes = []
+        for _ in range(k):
+            c = self.pick(self.excs + ["Exception"])
+            if c not in classes:
+                classes.append(c)
+        self.sites.append((list(self.callee_raises), list(stack) + [classes], "guarded_call"))
+        form = self.pick(["stmt", "init", "init_annotated"])
+        hname = self.fresh("h")
+        if form == "stmt":
+            lines.append(p + "callee(x) handle")
+        elif form == "init":
+            lines.append(p + "def %s := callee(x) handle" % hname)
         else:
-            # handle: the guarded call sees the arms' classes, the arm bodies do not
-            k = self.draw(st.integers(1, 2))
-            classes = []
-            for _ in range(k):
-                c = self.pick(self.excs + ["Exception"])
-                if c not in classes:
-                    classes.append(c)
-            self.sites.append((list(self.callee_raises), list(stack) + [classes], "guarded_call"))
-            form = self.pick(["stmt", "init"])
-            if form == "stmt":
-                lines.append(p + "callee(x) handle")
+            lines.append(p + "def %s: Int := callee(x) handle" % hname)
+        arms = []
+        for c in classes:
+            lines.append(p + "    %s: %s =>" % (self.fresh("err"), c))
+            body = None
+            if depth > 1 and self.budget > 0 and self.draw(st.integers(0, 9)) < 4:
+                body = self.node(stack, lines, ind + 2, depth - 2)   # inside an arm: own classes no longer apply
+                if form == "stmt":
+                    # arms of a statement handle end in a statement (an Int-valued tail would make the arms'
+                    # types disagree, which is a typing matter outside this property)
+                    lines.append(p + "        print(\"end arm\")")
             else:
-                lines.append(p + "def %s := callee(x) handle" % self.fresh("h"))
-            for c in classes:
-                lines.append(p + "    %s: %s =>" % (self.fresh("err"), c))
-                if depth > 1 and self.budget > 0 and self.draw(st.integers(0, 9)) < 4:
-                    self.node(stack, lines, ind + 2, depth - 2)   # inside an arm: own classes no longer apply
-                    if form == "stmt":
-                        # arms of a statement handle end in a statement (an Int-valued tail would make the arms'
-                        # types disagree, which is a typing matter outside this property)
-                        lines.append(p + "        print(\"end arm\")")
+                lines.append(p + "        print(\"arm %s\")" % c)
+            value = None
+            if form != "stmt":
+                value = self.draw(st.integers(0, 9))
+                lines.append(p + "        %d" % value)
+            arms.append((c, body, value))
+        if form == "stmt":
+            lines.append(p + "print(\"after handle\")")  # a handle statement is never the tail of a block (typing)
+        # (the value a handle definition produced is not read afterwards: in an else branch or a later match arm the checker
+        # cannot type such a read - open finding F73 - and which arm ran is visible from what the arms print)
+        after = None
+        if self.draw(st.integers(0, 9)) < 4 and self.budget > 0:
+            after = self.node(stack, lines, ind, depth - 1)       # after the handle: restoration
+        return ("handle", form, arms, after)
+
+    # -- reference: what encl(x) prints and which class leaves it ---------------------------------------------
+    def callee(self, x):
+        for i, r in enumerate(self.callee_raises):
+            if x == i + 1:
+                raise Raised(r)
+        return x
+
+    def run(self, t, x, out):
+        k = t[0]
+        if k == "call":
+            v = self.callee(x)
+            if t[1] == "stmt":
+                out.append("after call")
+            elif t[1] == "print":
+                out.append(str(v + 1))
+        elif k == "raise":
+            if x == 77:
+                raise Raised(t[1])
+        elif k == "if":
+            if x > 0:
+                self.run(t[1], x, out)
+                out.append("end then")
+            elif t[2] is not None:
+                self.run(t[2], x, out)
+                out.append("end else")
+        elif k == "loop":
+            for _ in range(t[1]):
+                self.run(t[2], x, out)
+        elif k == "match":
+            if x == 1:
+                self.run(t[1], x, out)
+                out.append("end arm 1")
+            else:
+                self.run(t[2], x, out)
+                out.append("end arm _")
+        elif k == "seq":
+            self.run(t[1], x, out)
+            self.run(t[2], x, out)
+        else:
+            _, form, arms, after = t
+            try:
+                v = self.callee(x)
+            except Raised as e:
+                # the first arm that names the class or an ancestor of it; none: the exception goes on
+                for c, body, value in arms:
+                    if c in ancestors(e.cls, self.parent) or c == "Exception":
+                        if body is None:
+                            out.append("arm %s" % c)
+                        else:
+                            self.run(body, x, out)
+                            if form == "stmt":
+                                out.append("end arm")
+                        v = value
+                        break
                 else:
-                    lines.append(p + "        print(\"arm %s\")" % c)
-                if form == "init":
-                    lines.append(p + "        %d" % self.draw(st.integers(0, 9)))
+                    raise
             if form == "stmt":
-                lines.append(p + "print(\"after handle\")")  # a handle statement is never the tail of a block (typing)
-            if self.draw(st.integers(0, 9)) < 4 and self.budget > 0:
-                self.node(stack, lines, ind, depth - 1)       # after the handle: restoration
+                out.append("after handle")
+            if after is not None:
+                self.run(after, x, out)
+
+    def expected_runs(self, tree, xs):
+        res = []
+        for x in xs:
+            out = []
+            try:
+                self.run(tree, x, out)
+                out.append("@returned")
+            except Raised as e:
+                out.append("@escaped " + e.cls)
+            res.append((x, out))
+        return res
 
     def covered(self, raised, stack, declared):
         for r in raised:
@@ -152,7 +253,7 @@ def _case(draw):
     g.callee_raises = sorted(set(draw(st.lists(st.sampled_from(excs), min_size=1, max_size=2))))
     in_method = draw(st.booleans())
     lines = []
-    g.node([], lines, 2 if in_method else 1, 3)
+    tree = g.node([], lines, 2 if in_method else 1, 3)
     # the enclosing function's declaration: drawn so that about half of the cases are fully covered
     mode = draw(st.sampled_from(["exact", "exact", "none", "random", "ancestor", "non_exception"]))
     needed = set()
@@ -181,15 +282,25 @@ def _case(draw):
         src.append("    if x = %d then raise %s(\"c%d\")" % (i + 1, r, i))
     src.append("    x")
     decl = " raise [%s]" % ", ".join(declared) if declared else ""
+    # signatures without a body (a forward declaration, an abstract method) declare raises of their own: what they list says
+    # nothing about the functions that follow them
+    sig = draw(st.integers(0, 9)) < 3
+    sig_raises = sorted(set(draw(st.lists(st.sampled_from(excs), min_size=1, max_size=3)))) if sig else []
+    if sig and not in_method:
+        src.append("def ext(y: Int) -> Int raise [%s]" % ", ".join(sig_raises))
     if in_method:
         src.append("class Host(def hv: Int)")
+        if sig:
+            src.append("    def sig(self, y: Int) -> Int raise [%s]" % ", ".join(sig_raises))
         src.append("    def encl(self, x: Int)%s =>" % decl)
     else:
         src.append("def encl(x: Int)%s =>" % decl)
     src += lines
     kinds = sorted(set(k for _r, _s, k in g.sites))
+    runs = g.expected_runs(tree, XS) if ok else []
     return {"src": "\n".join(src) + "\n", "declared": declared, "callee_raises": g.callee_raises, "parent": parent,
-            "sites": len(g.sites), "site_kinds": kinds, "mode": mode, "in_method": in_method, "expect": "ok" if ok else "err"}
+            "sites": len(g.sites), "site_kinds": kinds, "mode": mode, "in_method": in_method, "expect": "ok" if ok else "err",
+            "signature_before": sig_raises, "runs": [[x, out] for x, out in runs]}
 
 
 class C08:
@@ -212,6 +323,36 @@ class C08:
         SWITCHES.update(s.split(".", 1)[1] for s in switches if "." in s)
         return _case()
 
+    def run_time(self, py, case, stats):
+        """the emitted Python catches exactly the listed classes: encl(x) is called for six arguments (no raise, each class of the
+        callee, the direct raise) and what it prints and which class leaves it are compared with the reference"""
+        call = "Host(0).encl(%d)" if case["in_method"] else "encl(%d)"
+        driver = ["", ""]
+        for x, _out in case["runs"]:
+            driver += ["print(\"@x %d\")" % x, "try:", "    " + call % x, "    print(\"@returned\")", "except BaseException as zz_e:",
+                       "    print(\"@escaped \" + type(zz_e).__name__)"]
+        got = pyoracle.run_module(py + "\n".join(driver) + "\n", 40000)
+        if got["compile_error"]:
+            stats.inc("invalid_python_left_to_C02")
+            return None
+        if got["budget"] or got["exc"]:
+            stats.inc("run_time:not_judged")
+            return None
+        want = []
+        for x, out in case["runs"]:
+            want += ["@x %d" % x] + out
+        stats.inc("run_time:executed")
+        if any(o[-1].startswith("@escaped") for _x, o in case["runs"]):
+            stats.inc("run_time:declared_class_leaves_the_function")
+        if any(l.startswith("arm ") or l == "end arm" for _x, o in case["runs"] for l in o):
+            stats.inc("run_time:arm_taken")
+        if got["out"] != want:
+            n = next((i for i, (a, b) in enumerate(zip(got["out"], want)) if a != b), min(len(got["out"]), len(want)))
+            return {"what": "the emitted Python does not catch exactly the listed classes: output line %d is %r, the reference "
+                            "says %r" % (n, got["out"][n:n + 1], want[n:n + 1]), "expected": want, "got": got["out"],
+                    "python": py, "source": case["src"]}
+        return None
+
     def summarize(self, case):
         return {k: case[k] for k in ("declared", "callee_raises", "parent", "mode", "expect")} | {"src": case["src"][:900]}
 
@@ -227,9 +368,13 @@ class C08:
         stats.inc("sites:%d" % min(case["sites"], 6))
         stats.inc("enclosing:" + ("method" if case["in_method"] else "function"))
         stats.mark_nontrivial({"src": case["src"]}, sample=self.summarize(case), key=(case["mode"], case["expect"]))
+        if case.get("signature_before"):
+            stats.inc("signature_without_body_before")
         if oc == case["expect"]:
             if oc == "err" and not (r["err"] and all(isinstance(d, str) and d.strip() for d in r["err"])):
                 return {"what": "rejection without diagnostics"}
+            if oc == "ok" and case.get("runs"):
+                return self.run_time(r["ok"][0], case, stats)
             return None
         rr = worker.call({"op": "transpile_rep", "files": [[case["src"], None]], "dir": "", "annotate": False, "k": 10})
         if any(outcome(x) != oc for x in rr.get("results", [])):
